@@ -232,6 +232,52 @@ def _check_methods_versions(tier):
             res.add('evaluations', 10)
             if calls != [None, '1', '2', 0, ''] or [o_['ver'] for o_ in outs] != [None, '1', '2', 0, '', None, '1', '2', 0, '']:
                 res.violations.append(Violation('cached: versions of a method share entries', f'{cache_kind}: executions {calls}, results {outs}', {'kind': 'versions', 'cache': cache_kind}))
+        # a method whose result is None: cached like any other result (executed once, store_cache_value does not replace it unforced)
+        nc = []
+
+        class N:
+            def __init__(self, cache):
+                self.cache = cache
+
+            @cached
+            def lookup(self, x, strict=False):
+                nc.append(x)
+                return None
+        no = N(_make_cache(cache_kind, None))
+        res.add('evaluations', 6)
+        try:
+            rr = [no.lookup(1), no.lookup(1), no.lookup(x=1, strict=False), no.lookup(1, only_cache=True), no.lookup(1, store_cache_value='manual'), no.lookup(1)]
+            okn = rr == [None] * 6 and nc == [1]
+            detn = f'results {rr}, executions {nc}'
+        except Exception as e:  # noqa
+            okn, detn = False, f'{type(e).__name__}: {e}'
+        if not okn:
+            res.violations.append(Violation('cached: a stored None is treated as a missing entry', f'{cache_kind}: {detn}', {'kind': 'versions', 'cache': cache_kind}))
+        # version labels that differ only in characters a file name does not like
+        vcalls = []
+
+        class VV:
+            def __init__(self, cache):
+                self.cache = cache
+
+        def mkv(ver):
+            def m(self, x=0):
+                vcalls.append(ver)
+                return {'ver': ver, 'x': x}
+            return cached(version=ver)(m)
+        labels = ['r1/2', 'r1_2', 'r1:2', '2024-05 b', '2024-05:b', 'a.b', 'a_b']
+        for i_, lab in enumerate(labels):
+            setattr(VV, f'm{i_}', mkv(lab))
+        vo = VV(_make_cache(cache_kind, None))
+        res.add('evaluations', 2 * len(labels))
+        try:
+            outs_v = [getattr(vo, f'm{i_}')(5)['ver'] for i_ in range(len(labels))] + [getattr(vo, f'm{i_}')(x=5)['ver'] for i_ in range(len(labels))]
+            okv = outs_v == labels * 2 and vcalls == labels
+            detv = f'results {outs_v}, executions {vcalls}'
+        except Exception as e:  # noqa
+            okv, detv = False, f'{type(e).__name__}: {e}'
+        if not okv:
+            res.violations.append(Violation('cached: versions of a method share entries', f'{cache_kind}, labels {labels}: {detv}', {'kind': 'versions', 'cache': cache_kind}))
         # a method with a catch-all for keyword arguments: what it catches is part of the binding
         ex2 = []
 
